@@ -290,11 +290,15 @@ func drawTarget(rt *rapid.T) *target {
 
 var lenKinds = []string{"0", "1", "f-1", "f", "f+1", "f+s-1", "f+s", "f+s+1", "f+s-1", "f+s", "f+s+1", "f+ks-1", "f+ks", "f+ks+1", "f+ks-1", "f+ks", "f+ks+1", "random", "random", "random"}
 
+// The kind is an equal-weight choice (gen.Pick): with rapid.SampledFrom the first entries of the
+// list took most of the mass (single-segment plaintexts 44 %, empty ones 15 % of all cases).
 func drawPlaintextLen(rt *rapid.T, c *streamref.Config, maxSegs int) int {
 	f, s := c.FirstCap(), c.Cap()
 	k := rapid.IntRange(2, maxSegs-2).Draw(rt, "gridk")
 	n := 0
-	switch rapid.SampledFrom(lenKinds).Draw(rt, "lenkind") {
+	kind := gen.Pick(rt, "lenkind", lenKinds)
+	evid.Add("lenkind/"+kind, 1)
+	switch kind {
 	case "0":
 		n = 0
 	case "1":
@@ -322,6 +326,32 @@ func drawPlaintextLen(rt *rapid.T, c *streamref.Config, maxSegs int) int {
 	}
 	if n < 0 {
 		n = 0
+	}
+	return n
+}
+
+// drawLenWithSegments draws a plaintext length that occupies nseg segments, minSegs <= nseg <=
+// maxSegs (minSegs >= 2): all but the last one full, the last one holding 1..Cap bytes.
+func drawLenWithSegments(rt *rapid.T, c *streamref.Config, minSegs, maxSegs int) int {
+	f, s := c.FirstCap(), c.Cap()
+	nseg := rapid.IntRange(minSegs, maxSegs).Draw(rt, "nsegs")
+	last := s
+	switch gen.Uniform(rt, "lastsegkind", 4) {
+	case 0:
+		last = 1
+	case 1:
+		last = s
+	case 2:
+		last = s - 1
+	default:
+		last = rapid.IntRange(1, s).Draw(rt, "lastseglen")
+	}
+	if last < 1 {
+		last = 1
+	}
+	n := f + (nseg-2)*s + last
+	if got := c.NumSegments(n); got != nseg {
+		rt.Fatalf("harness: %d plaintext bytes give %d segments under %v, wanted %d", n, got, c, nseg)
 	}
 	return n
 }
@@ -678,7 +708,7 @@ type readResult struct {
 
 // runReads executes NewDecryptingReader and Read calls with the planned buffer sizes until the
 // first error. A Read that returns (0, nil) into a non-empty buffer is legal; after 64 of them
-// the run is given up as inconclusive.
+// in a row (any delivered byte restarts the count) the run is given up as inconclusive.
 func runReads(rt *rapid.T, dec tink.StreamingAEAD, data, aad []byte, plan readPlan, failAt int) readResult {
 	return runReadsErr(rt, dec, data, aad, plan, failAt, nil)
 }
@@ -715,7 +745,9 @@ func runReadsErr(rt *rapid.T, dec tink.StreamingAEAD, data, aad []byte, plan rea
 			res.calls++
 			return res
 		}
-		if n == 0 && size > 0 {
+		if n > 0 {
+			idle = 0
+		} else if size > 0 {
 			if idle++; idle > 64 {
 				break
 			}
@@ -735,11 +767,13 @@ func fullHex(b []byte) string {
 	return fmt.Sprintf("%x..(%d bytes, sha-free fingerprint %016x)", b[:64], len(b), evid.NewH().B(b).Sum())
 }
 
-// expectPlaintext is the positive oracle: the reads deliver exactly pt, then io.EOF, repeatedly.
+// expectPlaintext is the positive oracle: the reads deliver exactly pt, then io.EOF. What Read
+// returns when it is called again after that io.EOF is not stated by C07: two more calls are made
+// and only counted (reads_after_eof, observed_not_asserted/read_after_eof_not_0_EOF).
 func expectPlaintext(rt *rapid.T, desc string, res readResult, pt []byte) {
 	if res.inconclusive {
 		evid.Add("inconclusive_runs", 1)
-		rt.Skip("reader made no progress for 64 calls without reporting an error")
+		rt.Skip("reader made no progress for 64 calls in a row without reporting an error")
 	}
 	if res.stage == "constructor" {
 		rt.Fatalf("%s\nNewDecryptingReader failed on a genuine ciphertext: %v", desc, res.err)
@@ -752,8 +786,10 @@ func expectPlaintext(rt *rapid.T, desc string, res readResult, pt []byte) {
 	}
 	for i := 0; i < 2; i++ {
 		p := make([]byte, 1+i*40)
-		if n, err := res.r.Read(p); n != 0 || err != io.EOF {
-			rt.Fatalf("%s\nRead after io.EOF returned (%d, %v), want (0, io.EOF)", desc, n, err)
+		n, err := res.r.Read(p)
+		evid.Add("reads_after_eof", 1)
+		if n != 0 || err != io.EOF {
+			evid.Add("observed_not_asserted/read_after_eof_not_0_EOF", 1)
 		}
 	}
 }
@@ -763,7 +799,7 @@ func expectPlaintext(rt *rapid.T, desc string, res readResult, pt []byte) {
 func expectError(rt *rapid.T, desc string, res readResult, pt []byte) {
 	if res.inconclusive {
 		evid.Add("inconclusive_runs", 1)
-		rt.Skip("reader made no progress for 64 calls without reporting an error")
+		rt.Skip("reader made no progress for 64 calls in a row without reporting an error")
 	}
 	if !bytes.HasPrefix(pt, res.out) {
 		rt.Fatalf("%s\nreads delivered %d bytes %s which are not a prefix of the plaintext (then: %v)", desc, len(res.out), fullHex(res.out), res.err)
@@ -871,9 +907,12 @@ func TestRoundTrip(t *testing.T) {
 			}
 		}
 		if wp.writeAfterClose {
-			n, err := wres.w.Write([]byte{0x5a})
-			if err == nil {
-				rt.Fatalf("%s\nWrite after Close returned (%d, nil)", desc, n)
+			// C07 says nothing about a Write after Close: observed and counted, not asserted. The
+			// ciphertext that is read back below was taken before this call.
+			if _, err := wres.w.Write([]byte{0x5a}); err == nil {
+				evid.Add("observed_not_asserted/write_after_close_returned_nil", 1)
+			} else {
+				evid.Add("write_after_close_refused", 1)
 			}
 		}
 		res := runReads(rt, c.t.dec, ct, c.aad, rp, -1)
@@ -967,8 +1006,19 @@ func flipBit(b []byte, bit int) []byte {
 
 var manipKinds = []string{"truncate", "truncate", "drop", "dup", "swap", "flip", "flip", "append", "aad", "relast", "splice"}
 
-// drawManip applies exactly one manipulation to the genuine (ct, aad).
-func drawManip(rt *rapid.T, cfg *streamref.Config, c *caseData, ct []byte) manip {
+// segmentLevel reports whether the manipulation kind moves whole segments.
+func segmentLevel(kind string) bool { return kind == "drop" || kind == "dup" || kind == "swap" }
+
+// drawManip applies exactly one manipulation of the given kind to the genuine (ct, aad).
+//
+// inner (drop / dup / swap only; the caller has made the stream at least 4 segments long): the
+// operator works on full-size inner segments only - neither the shorter first nor the last one -
+// so that everything behind it stays on the segment grid and ONLY the segment counter in the
+// nonce can give the change away. Without it most drawn drops / copies / swaps involve the first
+// or the last segment or a stream of one or two segments (a misaligned or truncated stream,
+// which fails for other reasons). Every such manipulation that is aligned - forced or by chance -
+// gets "/aligned" in its kind.
+func drawManip(rt *rapid.T, cfg *streamref.Config, c *caseData, ct []byte, kind string, inner bool) manip {
 	header, segs := streamref.Split(cfg, ct)
 	n := len(segs)
 	hl, tl := cfg.HeaderLen(), cfg.TagLen()
@@ -977,7 +1027,7 @@ func drawManip(rt *rapid.T, cfg *streamref.Config, c *caseData, ct []byte) manip
 		bounds = append(bounds, bounds[len(bounds)-1]+len(s))
 	}
 	pick := func(label string) int { // first / last / any segment
-		switch rapid.IntRange(0, 3).Draw(rt, label+"_which") {
+		switch gen.Uniform(rt, label+"_which", 4) {
 		case 0:
 			return 0
 		case 1:
@@ -985,15 +1035,18 @@ func drawManip(rt *rapid.T, cfg *streamref.Config, c *caseData, ct []byte) manip
 		}
 		return rapid.IntRange(0, n-1).Draw(rt, label)
 	}
+	if inner && (!segmentLevel(kind) || n < 4) {
+		rt.Fatalf("harness: inner-segment manipulation %q asked for a stream of %d segments", kind, n)
+	}
 	m := manip{aad: c.aad}
-	m.kind = rapid.SampledFrom(manipKinds).Draw(rt, "manip")
+	m.kind = kind
 	if m.kind == "swap" && n < 2 {
 		m.kind = "flip"
 	}
 	switch m.kind {
 	case "truncate":
 		cut := 0
-		sub := rapid.SampledFrom([]string{"to-zero", "in-header", "header-end", "boundary", "boundary", "boundary-1", "boundary+1", "in-tag", "last-byte", "any"}).Draw(rt, "cutkind")
+		sub := gen.Pick(rt, "cutkind", []string{"to-zero", "in-header", "header-end", "boundary", "boundary", "boundary-1", "boundary+1", "in-tag", "last-byte", "any"})
 		b := bounds[rapid.IntRange(0, n).Draw(rt, "cutboundary")]
 		switch sub {
 		case "in-header":
@@ -1023,15 +1076,35 @@ func drawManip(rt *rapid.T, cfg *streamref.Config, c *caseData, ct []byte) manip
 		m.desc = fmt.Sprintf("truncate(%s) to %d of %d bytes", sub, cut, len(ct))
 		m.kind += "/" + sub
 	case "drop":
-		i := pick("dropseg")
+		i := 0
+		if inner {
+			i = rapid.IntRange(1, n-2).Draw(rt, "dropinner")
+		} else {
+			i = pick("dropseg")
+		}
 		s := cloneSegs(segs)
 		m.ct = streamref.Join(header, append(s[:i:i], s[i+1:]...))
 		m.desc = fmt.Sprintf("drop segment %d of %d", i, n)
+		if i >= 1 && i <= n-2 {
+			m.kind += "/aligned"
+		}
 	case "dup":
-		i := pick("dupseg")
-		at := i + 1
-		if rapid.IntRange(0, 2).Draw(rt, "dupelsewhere") == 0 {
-			at = rapid.IntRange(0, n).Draw(rt, "dupat")
+		i, at := 0, 0
+		if inner {
+			i = rapid.IntRange(1, n-2).Draw(rt, "dupinner")
+			at = i + 1
+			if gen.OneIn(rt, "dupelsewhere", 3) {
+				at = rapid.IntRange(1, n-1).Draw(rt, "dupatinner")
+			}
+		} else {
+			i = pick("dupseg")
+			at = i + 1
+			if gen.OneIn(rt, "dupelsewhere", 3) {
+				at = rapid.IntRange(0, n).Draw(rt, "dupat")
+			}
+		}
+		if i >= 1 && i <= n-2 && at >= 1 && at <= n-1 {
+			m.kind += "/aligned"
 		}
 		s := cloneSegs(segs)
 		var out [][]byte
@@ -1041,8 +1114,12 @@ func drawManip(rt *rapid.T, cfg *streamref.Config, c *caseData, ct []byte) manip
 		m.ct = streamref.Join(header, out)
 		m.desc = fmt.Sprintf("duplicate segment %d of %d, copy inserted before position %d", i, n, at)
 	case "swap":
-		i := rapid.IntRange(0, n-2).Draw(rt, "swapi")
-		j := rapid.IntRange(i+1, n-1).Draw(rt, "swapj")
+		lo, hi := 0, n-1 // candidates lo..hi
+		if inner {
+			lo, hi = 1, n-2
+		}
+		i := rapid.IntRange(lo, hi-1).Draw(rt, "swapi")
+		j := rapid.IntRange(i+1, hi).Draw(rt, "swapj")
 		if rapid.Bool().Draw(rt, "swapadjacent") {
 			j = i + 1
 		}
@@ -1050,8 +1127,11 @@ func drawManip(rt *rapid.T, cfg *streamref.Config, c *caseData, ct []byte) manip
 		s[i], s[j] = s[j], s[i]
 		m.ct = streamref.Join(header, s)
 		m.desc = fmt.Sprintf("swap segments %d and %d of %d", i, j, n)
+		if i >= 1 && j <= n-2 {
+			m.kind += "/aligned"
+		}
 	case "flip":
-		region := rapid.SampledFrom([]string{"header-length-byte", "salt", "nonce-prefix", "body", "tag", "any"}).Draw(rt, "flipregion")
+		region := gen.Pick(rt, "flipregion", []string{"header-length-byte", "salt", "nonce-prefix", "body", "tag", "any"})
 		lo, hi := 0, len(ct) // byte range
 		i := pick("flipseg")
 		switch region {
@@ -1074,7 +1154,7 @@ func drawManip(rt *rapid.T, cfg *streamref.Config, c *caseData, ct []byte) manip
 		m.desc = fmt.Sprintf("flip bit %d of byte %d (%s, segment %d)", bit%8, bit/8, region, i)
 		m.kind += "/" + region
 	case "append":
-		sub := rapid.SampledFrom([]string{"random", "zero-byte", "copy-of-segment", "copy-of-last", "tag-sized"}).Draw(rt, "appendkind")
+		sub := gen.Pick(rt, "appendkind", []string{"random", "zero-byte", "copy-of-segment", "copy-of-last", "tag-sized"})
 		var sfx []byte
 		switch sub {
 		case "random":
@@ -1105,7 +1185,7 @@ func drawManip(rt *rapid.T, cfg *streamref.Config, c *caseData, ct []byte) manip
 		if err != nil {
 			rt.Fatalf("harness: %v", err)
 		}
-		sub := rapid.SampledFrom([]string{"last-encoded-as-inner", "inner-encoded-as-last", "last-with-next-counter"}).Draw(rt, "relastkind")
+		sub := gen.Pick(rt, "relastkind", []string{"last-encoded-as-inner", "inner-encoded-as-last", "last-with-next-counter"})
 		if sub == "inner-encoded-as-last" && n < 2 {
 			sub = "last-encoded-as-inner"
 		}
@@ -1136,7 +1216,7 @@ func drawManip(rt *rapid.T, cfg *streamref.Config, c *caseData, ct []byte) manip
 		m.desc = "re-encode with the session key: " + sub
 		m.kind += "/" + strings.SplitN(sub, "(", 2)[0]
 	case "splice":
-		sub := rapid.SampledFrom([]string{"header-of-other-stream", "nonce-prefix-of-other-stream", "segment-of-other-stream", "segment-of-other-aad"}).Draw(rt, "splicekind")
+		sub := gen.Pick(rt, "splicekind", []string{"header-of-other-stream", "nonce-prefix-of-other-stream", "segment-of-other-stream", "segment-of-other-aad"})
 		salt := append([]byte{}, header[1:1+cfg.KeySize]...)
 		prefix := append([]byte{}, header[1+cfg.KeySize:]...)
 		aad2 := c.aad
@@ -1182,12 +1262,23 @@ func drawManip(rt *rapid.T, cfg *streamref.Config, c *caseData, ct []byte) manip
 func TestManipulation(t *testing.T) {
 	rapid.Check(t, func(rt *rapid.T) {
 		detrand.Seed(rapid.Uint64().Draw(rt, "entropy"))
-		c := drawCase(rt, 10)
-		cfg := c.t.cfg()
+		// The kind comes first: half of the drop / dup / swap cases get a stream of at least four
+		// segments and an operator on its full-size inner segments (see drawManip).
+		tg := drawTarget(rt)
+		cfg := tg.cfg()
+		kind := gen.Pick(rt, "manip", manipKinds)
+		inner := segmentLevel(kind) && gen.Uniform(rt, "innersegments", 2) == 0
+		ptLen := 0
+		if inner {
+			ptLen = drawLenWithSegments(rt, cfg, 4, 10)
+		} else {
+			ptLen = drawPlaintextLen(rt, cfg, 10)
+		}
+		c := &caseData{t: tg, pt: gen.BytesN(rt, "pt", ptLen), aad: gen.BytesOrNil(rt, "aad", 64)}
 		rp := drawReadPlan(rt, cfg)
 		var ct []byte
 		producer := "reference"
-		if rapid.IntRange(0, 3).Draw(rt, "tinkproduced") == 0 {
+		if gen.OneIn(rt, "tinkproduced", 4) {
 			producer = "tink"
 			ct, _ = tinkEncrypt(rt, c, writePlan{pat: []int{whole}, kind: "whole"})
 			if len(ct) < cfg.HeaderLen() || !bytes.Equal(ct, streamref.Encrypt(cfg, c.pt, c.aad, ct[1:1+cfg.KeySize], ct[1+cfg.KeySize:cfg.HeaderLen()])) {
@@ -1196,7 +1287,7 @@ func TestManipulation(t *testing.T) {
 		} else {
 			ct = refEncrypt(rt, c, "")
 		}
-		m := drawManip(rt, cfg, c, ct)
+		m := drawManip(rt, cfg, c, ct, kind, inner)
 		desc := fmt.Sprintf("%v\n  %v\n  genuine ciphertext (by %s)=%s\n  manipulation: %s\n  manipulated ciphertext=%s aad=%s", c, rp, producer, fullHex(ct), m.desc, fullHex(m.ct), fullHex(m.aad))
 		if genuineUnder(c.t.members, m.ct, m.aad) {
 			// not a manipulation after all (cannot happen short of a forgery): nothing to demand
@@ -1221,14 +1312,17 @@ func TestManipulation(t *testing.T) {
 // (4) persistent I/O errors below the writer and the reader
 // ---------------------------------------------------------------------------------------------
 
-// faultPositions lists the byte offsets at which the underlying stream starts to fail: every
-// header byte, every segment boundary +-1, the last bytes, and a few drawn ones.
+// faultPositions lists the byte offsets at which the underlying stream starts to fail: the ends
+// of the header (0, 1, headerLen-1, headerLen) and one drawn offset inside it, every segment
+// boundary +-1, the last bytes, and a few drawn ones. (Every header byte used to be listed: 78 %
+// of all positions, all of them on the one path "the header is written / read in one piece".)
 func faultPositions(rt *rapid.T, cfg *streamref.Config, ptLen int, withEnd bool) []int {
 	total := cfg.CiphertextLen(ptLen)
 	set := map[int]bool{}
-	for k := 0; k <= cfg.HeaderLen(); k++ {
+	for _, k := range []int{0, 1, cfg.HeaderLen() - 1, cfg.HeaderLen()} {
 		set[k] = true
 	}
+	set[rapid.IntRange(0, cfg.HeaderLen()).Draw(rt, "faultinheader")] = true
 	b := cfg.HeaderLen()
 	for i := 0; i < cfg.NumSegments(ptLen) && b < total; i++ {
 		for d := -1; d <= 1; d++ {
@@ -1270,32 +1364,43 @@ func faultPositions(rt *rapid.T, cfg *streamref.Config, ptLen int, withEnd bool)
 	return ks
 }
 
+// expectWriterFault runs the write history against an underlying writer that fails persistently
+// from ciphertext offset k on and requires the failure to surface from NewEncryptingWriter, a
+// Write or Close; an error before the underlying writer failed is a violation of the round-trip
+// clause (the stream is healthy up to there). It returns the call that reported the error.
+func expectWriterFault(rt *rapid.T, c *caseData, wp writePlan, k int, partial bool, ferr error) string {
+	total := c.t.cfg().CiphertextLen(len(c.pt))
+	if k < 0 || k >= total {
+		rt.Fatalf("harness: writer fault offset %d outside the %d ciphertext bytes", k, total)
+	}
+	sk := &sink{failAt: k, partial: partial, failErr: ferr}
+	res := runWrites(c.t.enc, sk, c.aad, c.pt, wp)
+	if res.stage == "" {
+		rt.Fatalf("%v\n  %v\nthe underlying writer failed persistently (error %q) from byte offset %d (partial write=%v; it accepted %d of the %d ciphertext bytes in %d calls), but NewEncryptingWriter, all %d Write calls %v and Close returned nil", c, wp, ferr, k, partial, len(sk.buf), total, sk.calls, len(res.writes), res.writes)
+	}
+	if !sk.failed {
+		// an error without a failure underneath: the stream is healthy up to here
+		rt.Fatalf("%v\n  %v\n%s failed with %v although the underlying writer had not failed yet (fault planned at offset %d, %d bytes written)", c, wp, res.stage, res.err, k, len(sk.buf))
+	}
+	return strings.SplitN(res.stage, "#", 2)[0]
+}
+
 func TestFaults(t *testing.T) {
 	rapid.Check(t, func(rt *rapid.T) {
 		detrand.Seed(rapid.Uint64().Draw(rt, "entropy"))
 		c := drawCase(rt, 8)
 		cfg := c.t.cfg()
-		side := rapid.SampledFrom([]string{"writer", "reader"}).Draw(rt, "side")
-		errKind := rapid.SampledFrom(faultErrKinds).Draw(rt, "faulterr")
+		side := gen.Pick(rt, "side", []string{"writer", "reader"})
+		errKind := gen.Pick(rt, "faulterr", faultErrKinds)
 		ferr := faultErr(errKind, side)
 		nseg := cfg.NumSegments(len(c.pt))
-		total := cfg.CiphertextLen(len(c.pt))
 		if side == "writer" {
 			wp := drawWritePlan(rt, cfg)
 			partial := rapid.Bool().Draw(rt, "partialwrite")
 			ks := faultPositions(rt, cfg, len(c.pt), false)
 			stages := map[string]int{}
 			for _, k := range ks {
-				sk := &sink{failAt: k, partial: partial, failErr: ferr}
-				res := runWrites(c.t.enc, sk, c.aad, c.pt, wp)
-				if res.stage == "" {
-					rt.Fatalf("%v\n  %v\nthe underlying writer failed persistently (error %q) from byte offset %d (partial write=%v; it accepted %d of the %d ciphertext bytes in %d calls), but NewEncryptingWriter, all %d Write calls %v and Close returned nil", c, wp, ferr, k, partial, len(sk.buf), total, sk.calls, len(res.writes), res.writes)
-				}
-				if !sk.failed {
-					// an error without a failure underneath: the stream is healthy up to here
-					rt.Fatalf("%v\n  %v\n%s failed with %v although the underlying writer had not failed yet (fault planned at offset %d, %d bytes written)", c, wp, res.stage, res.err, k, len(sk.buf))
-				}
-				stages[strings.SplitN(res.stage, "#", 2)[0]]++
+				stages[expectWriterFault(rt, c, wp, k, partial, ferr)]++
 			}
 			for s, n := range stages {
 				evid.Add("writer_error_from_"+s, int64(n))
@@ -1421,9 +1526,87 @@ func TestKeysetReader(t *testing.T) {
 }
 
 // ---------------------------------------------------------------------------------------------
-// (6) just outside the domain: constructors return an error and do not panic
+// (6) just outside the domain
 // ---------------------------------------------------------------------------------------------
 
+// refDefined reports whether the format description still says what the ciphertext under c looks
+// like although c is outside the documented domain (AES-192 session keys, short main keys, short
+// tags, a first segment without room for plaintext): the reference codec computes it then.
+func refDefined(c *streamref.Config) bool {
+	if c.KeySize != 16 && c.KeySize != 24 && c.KeySize != 32 {
+		return false
+	}
+	if sym.HashByName(c.HKDF) == nil {
+		return false
+	}
+	if c.Type == streamref.CTR {
+		h := sym.HashByName(c.TagAlg)
+		if h == nil || c.TagSize < 1 || c.TagSize > h().Size() {
+			return false
+		}
+	}
+	return c.Offset >= 0 && c.FirstCap() >= 0 && c.Cap() >= 1 && c.HeaderLen() <= 255
+}
+
+// checkBuilt is what C07 says about a configuration outside the documented domain that a
+// constructor nevertheless built: it is a streaming-AEAD key then, so what it writes without
+// error has to read back as the plaintext, and - where the format description still applies
+// (refDefined) - be the ciphertext of the independent implementation, whose ciphertexts it has to
+// read. An error from NewEncryptingWriter / Write / Close is a refusal that comes late (counted).
+func checkBuilt(rt *rapid.T, desc, kind string, cfg *streamref.Config, p tink.StreamingAEAD) {
+	withRef := refDefined(cfg)
+	n := 0
+	wp := writePlan{pat: []int{whole}, kind: "whole"}
+	rp := readPlan{bufs: []int{whole}, bufKind: "whole", chunks: []int{whole}, chunkKind: "whole"}
+	if withRef {
+		n = drawPlaintextLen(rt, cfg, 6)
+		wp, rp = drawWritePlan(rt, cfg), drawReadPlan(rt, cfg)
+	} else {
+		n = rapid.IntRange(0, 300).Draw(rt, "builtlen")
+	}
+	c := &caseData{t: &target{route: "built", members: []*streamref.Config{cfg}, enc: p, dec: p}, pt: gen.BytesN(rt, "builtpt", n), aad: gen.BytesOrNil(rt, "builtaad", 64)}
+	desc = fmt.Sprintf("%s\n  plaintext(%d bytes)=%s aad=%s\n  %v\n  %v", desc, n, fullHex(c.pt), fullHex(c.aad), wp, rp)
+	defer func() {
+		if r := recover(); r != nil {
+			if strings.Contains(fmt.Sprintf("%T", r), "rapid.") {
+				panic(r) // rapid's own control flow (Fatalf, Skip) travels as a panic
+			}
+			rt.Fatalf("%s\nthe constructor built the configuration, using it panicked: %v", desc, r)
+		}
+	}()
+	sk := &sink{failAt: -1}
+	if wres := runWrites(p, sk, c.aad, c.pt, wp); wres.stage != "" {
+		evid.Add("ood_built_then_refused_at_write/"+kind, 1)
+		return
+	}
+	ct := sk.buf
+	desc += "\n  ciphertext=" + fullHex(ct)
+	expectPlaintext(rt, desc+"\n  (reading back its own ciphertext)", runReads(rt, p, ct, c.aad, rp, -1), c.pt)
+	evid.Add("ood_built_round_trip/"+kind, 1)
+	if !withRef {
+		evid.Add("ood_built_without_reference/"+kind, 1)
+		return
+	}
+	if len(ct) < cfg.HeaderLen() {
+		rt.Fatalf("%s\nciphertext is shorter than the %d-byte header of the format", desc, cfg.HeaderLen())
+	}
+	want := streamref.Encrypt(cfg, c.pt, c.aad, ct[1:1+cfg.KeySize], ct[1+cfg.KeySize:cfg.HeaderLen()])
+	if !bytes.Equal(want, ct) {
+		rt.Fatalf("%s\nciphertext differs from the independent implementation's under the same salt and nonce prefix:\n  %s", desc, fullHex(want))
+	}
+	rct := refEncrypt(rt, c, "builtref")
+	expectPlaintext(rt, desc+"\n  reading the independent implementation's ciphertext "+fullHex(rct), runReads(rt, p, rct, c.aad, rp, -1), c.pt)
+	evid.Add("ood_built_format_both_ways/"+kind, 1)
+}
+
+// TestConstructorDomain: configurations one step outside the documented domain (segment size
+// below the smallest one whose first segment holds a plaintext byte, main key shorter than the
+// derived key or than 16 bytes, derived key sizes other than 16 / 32, tag sizes below 10 or above
+// the digest size). C07 does not say that a constructor has to refuse them, so a refusal is
+// counted (ood_refused/<kind>) and not demanded; what the property does cover is a constructor
+// that BUILDS such a key: see checkBuilt. A panic of the constructor is neither. The neighbour
+// inside the domain (smallest legal segment size) has to be accepted, like every documented
+// configuration in the other units.
 func TestConstructorDomain(t *testing.T) {
 	rapid.Check(t, func(rt *rapid.T) {
 		detrand.Seed(rapid.Uint64().Draw(rt, "entropy"))
@@ -1434,7 +1617,7 @@ func TestConstructorDomain(t *testing.T) {
 		if good.Type == streamref.CTR {
 			kinds = append(kinds, "tag-too-small", "tag-too-big")
 		}
-		kind := rapid.SampledFrom(kinds).Draw(rt, "kind")
+		kind := gen.Pick(rt, "kind", kinds)
 		min := streamref.MinSegmentSize(good.KeySize, good.TagLen(), good.Offset)
 		switch kind {
 		case "segment-size-min-1":
@@ -1469,10 +1652,15 @@ func TestConstructorDomain(t *testing.T) {
 				p, err = newSubtle(&bad)
 			}
 		}()
-		if err == nil {
-			rt.Fatalf("constructor (keyLevel=%v) accepted the out-of-domain configuration %v (%s; the smallest legal segment size is %d): %T", keyLevel, &bad, kind, min, p)
+		outcome, refusal := "refused", ""
+		if err != nil {
+			refusal = err.Error()
+			evid.Add("ood_refused/"+kind, 1)
+		} else {
+			outcome = "built"
+			evid.Add("ood_built/"+kind, 1)
+			checkBuilt(rt, fmt.Sprintf("constructor (keyLevel=%v) built the out-of-domain configuration %v (%s; the smallest legal segment size is %d): %T", keyLevel, &bad, kind, min, p), kind, &bad, p)
 		}
-		refusal := err.Error()
 		// and the neighbour inside the domain is accepted
 		edge := *good
 		edge.SegmentSize = min
@@ -1488,8 +1676,8 @@ func TestConstructorDomain(t *testing.T) {
 		if good.Type == streamref.CTR {
 			ty = "ctr"
 		}
-		evid.Case(fmt.Sprintf("%s/keylevel=%v/%s", ty, keyLevel, kind), true, evid.NewH().S(bad.String()).S(kind).Sum(), func() any {
-			return map[string]any{"config": bad.String(), "kind": kind, "error": refusal}
+		evid.Case(fmt.Sprintf("%s/keylevel=%v/%s/%s", ty, keyLevel, kind, outcome), true, evid.NewH().S(bad.String()).S(kind).Sum(), func() any {
+			return map[string]any{"config": bad.String(), "kind": kind, "outcome": outcome, "error": refusal}
 		})
 	})
 }
